@@ -447,4 +447,138 @@ def msgpack2json (P : FloatIO) (mode : Mode) (bs : List Nat) : Outcome :=
       | .ok => ⟨out, .ok⟩
       | v => ⟨out, .srcMsgpack v⟩
 
+/-! ## The document at which a MessagePack source fails
+
+`msgpack2json` above is defined on the COMPLETE documents the source loop hands
+out.  When the loop ends in a decoder failure, the failing document has been
+streamed into the serializer up to that point: serde_json has written a prefix
+of it, and — since the first failure in execution order decides
+(`transcode_first_failure`) — a key it refuses BEFORE the decoder's failure
+makes the run end in that refusal instead.  `decodeOps` is `decodeG` keeping
+the ops issued before the failure (`Lemmas/Bridge.decodeOps_spec`: on success
+they are `flatten (mvalToDe v)`, and it fails exactly when `decodeG` does, with
+the same error).  rmp_serde's accesses call the seed whenever an element is
+due, so the collection serializer's own work (`elemPre` / `keyPre` / `valPre`:
+serde_json's `,` and `:`) precedes the failure of the element's
+`deserialize_any`. -/
+
+/-- The scalar visit for a value that is complete after its header. -/
+def scalarOp (v : Msgpack.MVal) : List Op := flatten (mvalToDe v)
+
+def seqOps (f : List Nat → List Op × Except Msgpack.DErr (List Nat)) :
+    Nat → List Nat → List Op × Except Msgpack.DErr (List Nat)
+  | 0, bs => ([], .ok bs)
+  | n + 1, bs =>
+    match f bs with
+    | (ops, .error e) => (.elemPre :: ops, .error e)
+    | (ops, .ok r) =>
+      match seqOps f n r with
+      | (ops', res) => (.elemPre :: ops ++ .elemPost :: ops', res)
+
+def pairsOps (f : List Nat → List Op × Except Msgpack.DErr (List Nat)) :
+    Nat → List Nat → List Op × Except Msgpack.DErr (List Nat)
+  | 0, bs => ([], .ok bs)
+  | n + 1, bs =>
+    match f bs with
+    | (kops, .error e) => (.keyPre :: kops, .error e)
+    | (kops, .ok r) =>
+      match f r with
+      | (vops, .error e) => (.keyPre :: kops ++ .keyPost :: .valPre :: vops, .error e)
+      | (vops, .ok r') =>
+        match pairsOps f n r' with
+        | (ops', res) => (.keyPre :: kops ++ .keyPost :: .valPre :: vops ++ .valPost :: ops', res)
+
+/-- `deserialize_any` with depth counter `d` driving xt's visitor: the ops
+issued, and the unread rest or the decoder's failure. -/
+def decodeOps (d : Nat) (bs : List Nat) : List Op × Except Msgpack.DErr (List Nat) :=
+  match bs with
+  | [] => ([], .error .eofMarker)
+  | b :: t =>
+    match Msgpack.header (Msgpack.Marker.ofByte b) t with
+    | .error e => ([], .error e)
+    | .ok (.scalar v, r) => (scalarOp v, .ok r)
+    | .ok (.str len, r) =>
+      match Msgpack.readN len r with
+      | .error e => ([], .error e)
+      | .ok (s, r') => (scalarOp (if Msgpack.validUtf8 s then .str s else .bin s), .ok r')
+    | .ok (.bin len, r) =>
+      match Msgpack.readN len r with
+      | .error e => ([], .error e)
+      | .ok (s, r') => (scalarOp (.bin s), .ok r')
+    | .ok (.ext _, _) =>
+      match d with
+      | 0 => ([], .error .depthUnderflow)
+      | d' + 1 => if d' = 0 then ([], .error .depthLimitExceeded) else ([], .error .extUnsupported)
+    | .ok (.arr count, r) =>
+      match d with
+      | 0 => ([], .error .depthUnderflow)
+      | d' + 1 =>
+        if d' = 0 then ([], .error .depthLimitExceeded)
+        else
+          match seqOps (decodeOps d') count r with
+          | (ops, .ok r') => (.seqBegin :: ops ++ [.seqEnd], .ok r')
+          | (ops, .error e) => (.seqBegin :: ops, .error e)
+    | .ok (.map pairs, r) =>
+      match d with
+      | 0 => ([], .error .depthUnderflow)
+      | d' + 1 =>
+        if d' = 0 then ([], .error .depthLimitExceeded)
+        else
+          match pairsOps (decodeOps d') pairs r with
+          | (ops, .ok r') => (.mapBegin :: ops ++ [.mapEnd], .ok r')
+          | (ops, .error e) => (.mapBegin :: ops, .error e)
+termination_by structural d
+
+/-- Reader supply: the input from the document at which the loop stopped. -/
+def readerRest (d : Nat) (bs : List Nat) : List Nat :=
+  if bs.isEmpty then []
+  else
+    match h : Msgpack.decodeG false d bs with
+    | .error _ => bs
+    | .ok (v, rest) =>
+      have : rest.length < bs.length := Msgpack.decodeG_lt false d bs v rest h
+      readerRest d rest
+termination_by bs.length
+
+/-- Slice supply: the piece handed to the deserializer that failed; `none`
+when the loop ended otherwise (in particular when `next_value_size` failed:
+then nothing of that document was visited). -/
+def sliceRest (l d : Nat) (rest : List Nat) : Option (List Nat) :=
+  if rest.isEmpty then none
+  else
+    match Msgpack.nextValueSize rest l with
+    | .ok n =>
+      if n ≤ rest.length then
+        match h : Msgpack.decodeG false d (rest.take n) with
+        | .error _ => some (rest.take n)
+        | .ok (v, leftover) =>
+          have : rest.length - n < rest.length := by
+            have := Msgpack.decodeG_lt false d _ v leftover h
+            rw [List.length_take] at this
+            omega
+          sliceRest l d (rest.drop n)
+      else none
+    | _ => none
+termination_by rest.length
+
+/-- What serde_json had written of the document at which the source failed,
+and its refusal if one came first. -/
+def failingDoc (P : FloatIO) (mode : Mode) (bs : List Nat) : List Nat × Option SErr :=
+  let piece := match mode with
+    | .reader => some (readerRest Msgpack.depthLimit bs)
+    | .slice => sliceRest Msgpack.depthLimit Msgpack.depthLimit bs
+  match piece with
+  | none => ([], none)
+  | some p => opsToJsonPartial P (decodeOps Msgpack.depthLimit p).1
+
+/-- `xt -f msgpack -t json`, including what a source-side failure leaves
+behind: equal to `msgpack2json` unless that ends in a source failure. -/
+def msgpack2jsonX (P : FloatIO) (mode : Mode) (bs : List Nat) : Outcome :=
+  match msgpack2json P mode bs with
+  | ⟨out, .srcMsgpack v⟩ =>
+    match failingDoc P mode bs with
+    | (part, some e) => ⟨out ++ part, .ser e⟩
+    | (part, none) => ⟨out ++ part, .srcMsgpack v⟩
+  | r => r
+
 end Xt.Bridge
